@@ -9,11 +9,13 @@ Cmds == <<
   C("ct_add_section", <<"NAME", "@", "EXPECTFAIL">>),
   C("ct_add_section", <<"x", "NAME", "@">>),
   C("ct_add_section", <<"NAME", "@", "EXPECTFAIL-is-reported", "name.y">>),
-  C("add_test", <<"NAME", "@", "COMMAND", "prog", "--x">>),
+  \* more than 100 characters of arguments, blanks inside a quoted one, an escaped semicolon: all shown, as written
+  C("add_test", <<"NAME", "@", "COMMAND", "prog", "--alpha-option-number-one", "--beta-option-number-two", "--gamma-option-number-three",
+                  "--delta-option-number-four", "\"Unit  tests:   core\"", "-DM=core\\;io">>),
   C("add_test", <<"COMMAND", "prog", "NAME", "@">>),
   C("add_test", <<"NAME", "@", "COMMAND", "@", "--RENAME">>),
   C("add_test", <<"NAME", "@", "COMMAND", "p", "ANAME">>),
-  C("function", <<"${@}">>), C("macro", <<"${@}">>),
+  C("function", <<"${@}">>), C("macro", <<"${@}", "first", "second">>),
   C("endfunction", <<>>), C("endmacro", <<>>),
   C("other", <<"hi">>)
 >>
